@@ -12,6 +12,8 @@ search (model-free): the property evaluated directly on the returned arrays with
      linear scans (count of np.diff>0, end points, unique counts, the unique span containing u,
      sorted multiset union, symmetric equality, derivative spline vs pointwise derivative).
 """
+from fractions import Fraction
+
 import numpy as np
 
 from .common import plist, frac as _frac
@@ -36,11 +38,12 @@ THEOREMS = [
     'Pyiga.Props.C19.mesh_support_consistency',
     'Pyiga.Props.C19.greville_in_domain', 'Pyiga.Props.C19.greville_raw_in_domain',
     'Pyiga.Props.C19.refine_sorted', 'Pyiga.Props.C19.refine_perm', 'Pyiga.Props.C19.refine_uniform_spec',
+    'Pyiga.Props.C19.refine_uniform_mesh',
     'Pyiga.Props.C19.eq_refl', 'Pyiga.Props.C19.eq_not_symm', 'Pyiga.Props.C19.eq_sym_repaired',
     'Pyiga.Props.C19.spline_derivative',
     'Pyiga.Props.C19.make_knots_admissible', 'Pyiga.Props.C19.make_knots_partition_of_unity',
 ]
-MODULES = ['Pyiga.Model.Knots', 'Pyiga.Model.BSpline', 'Pyiga.Proofs.Knots', 'Pyiga.Proofs.BSpline', 'Pyiga.Props.C02', 'Pyiga.Props.C19']
+MODULES = ['Pyiga.Model.Knots', 'Pyiga.Model.BSpline', 'Pyiga.Proofs.Knots', 'Pyiga.Proofs.KnotsInterleave', 'Pyiga.Proofs.BSpline', 'Pyiga.Props.C02', 'Pyiga.Props.C19']
 
 ATOL = 1e-8
 RTOL = 1e-8
@@ -428,6 +431,18 @@ def run(ctx):
             u0, c0 = np.unique(k, return_counts=True); u1, c1 = np.unique(r.kv, return_counts=True)
             if dict(zip(u0.tolist(), c0.tolist())) != {x: c for x, c in zip(u1.tolist(), c1.tolist()) if x in set(u0.tolist())}:
                 return 'uniform refinement changed an old multiplicity'
+            # theorem refine_uniform_mesh: the new mesh is the old one interleaved with the span midpoints
+            m0 = [Fraction(float(x)) for x in K2.mesh]
+            ilv = []
+            for a_, b_ in zip(m0[:-1], m0[1:]):
+                ilv += [a_, (a_ + b_) / 2]
+            ilv.append(m0[-1])
+            m1 = [Fraction(float(x)) for x in r.mesh]
+            if len(m1) != len(ilv):
+                return 'uniform refinement: mesh has %d breakpoints, interleaving has %d' % (len(m1), len(ilv))
+            for i_, (x_, y_) in enumerate(zip(m1, ilv)):
+                if abs(x_ - y_) > Fraction(1, 2 ** 50) * max(abs(m0[0]), abs(m0[-1]), abs(y_)):
+                    return 'uniform refinement: breakpoint %d is %r, old mesh interleaved with midpoints has %r' % (i_, float(x_), float(y_))
             return None
         # midpoints of adjacent doubles cannot halve a span: the generator's spans are >= 2^-40 relative, fine
         try:
